@@ -42,6 +42,23 @@ def _call_exception(q: str, c: ast.Call, fn: ast.FunctionDef) -> Optional[str]:
         params = [a.arg for a in fn.args.args]
         loop_vars = {n.target.id for n in walk_local(fn) if isinstance(n, ast.For) and isinstance(n.target, ast.Name) and isinstance(n.iter, ast.Name)
                      and n.iter.id in params}
+        loop_vars |= {n.target.elts[1].id for n in walk_local(fn) if isinstance(n, ast.For) and isinstance(n.target, ast.Tuple) and len(n.target.elts) == 2
+                      and isinstance(n.target.elts[1], ast.Name) and isinstance(n.iter, ast.Call) and dotted(n.iter.func) == "enumerate" and n.iter.args
+                      and isinstance(n.iter.args[0], ast.Name) and n.iter.args[0].id in params}
+        if isinstance(f, ast.Name) and f.id not in loop_vars:
+            # a local that holds either the step itself or the table's entry for it
+            ds = [s_.value for s_ in stmts_local(fn.body) if isinstance(s_, ast.Assign) and len(s_.targets) == 1 and norm(s_.targets[0]) == f.id]
+            def _from_step(v):
+                if isinstance(v, ast.IfExp):
+                    return _from_step(v.body) and (_from_step(v.orelse) or (isinstance(v.orelse, ast.Constant) and v.orelse.value is None))
+                return (isinstance(v, ast.Name) and v.id in loop_vars) or (
+                    isinstance(v, ast.Subscript) and isinstance(v.value, ast.Name) and isinstance(v.slice, ast.Name) and v.slice.id in loop_vars) or (
+                    isinstance(v, ast.Call) and isinstance(v.func, ast.Attribute) and v.func.attr == "get" and isinstance(v.func.value, ast.Name)
+                    and len(v.args) == 1 and isinstance(v.args[0], ast.Name) and v.args[0].id in loop_vars)
+            nones = [v for v in ds if isinstance(v, ast.Constant) and v.value is None]
+            ds = [v for v in ds if v not in nones]
+            if ds and all(_from_step(v) for v in ds):
+                return "the step function: a custom cleaning step supplied by the caller (outside the claim) or the module-level table's entry for the step name (checked pure: .../table-cleaner:*)"
         if isinstance(f, ast.Name) and f.id in loop_vars:
             return "a custom cleaning step supplied by the caller is outside the claim (default steps are module functions)"
         if isinstance(f, ast.Subscript) and isinstance(f.value, ast.Name) and isinstance(f.slice, ast.Name) and f.slice.id in loop_vars:
@@ -94,8 +111,19 @@ def lazy_global(fs) -> Optional[str]:
         cur, ok = st, False
         while cur is not fn:
             par = cur.parent
-            if isinstance(par, ast.If) and cur in par.body and presence_test(par.test) == (G, False):
-                ok = True
+            if isinstance(par, ast.If) and cur in par.body:
+                pt = presence_test(par.test)
+                if pt == (G, False):
+                    ok = True
+                elif pt is not None and pt[1] is False and pt[0].isidentifier():
+                    # through a local snapshot: `t = G` ... `if t is None: ...; G = t`
+                    L = pt[0]
+                    binds = [x for x in walk_local(fn) if isinstance(x, (ast.Assign, ast.AugAssign, ast.AnnAssign, ast.For, ast.NamedExpr)) and L in assigned_names(x)]
+                    snap = [x for x in binds if isinstance(x, ast.Assign) and isinstance(x.value, ast.Name) and x.value.id == G and x in fn.body and par in fn.body
+                            and fn.body.index(x) < fn.body.index(par)]
+                    inside = [x for x in binds if any(x is y for y in ast.walk(par))]
+                    if len(snap) == 1 and len(binds) == len(snap) + len(inside):
+                        ok = True
             cur = par
         if not ok:
             return None
@@ -391,8 +419,10 @@ def run(ctx: Ctx):
                    f"`@{norm(base)}` keys its cache by equality of the arguments: every parameter must be annotated with a builtin immutable type "
                    f"(not so: {bad or ('self' if selfish else '*args')}); equal eyecite objects (citations compare by volume/reporter/page) can differ in "
                    "what the function reads, so a later call would get an earlier call's result", node=fs.node, mod=fs.mod)
-            ctx.ob("R-C15-6", f"{q}/memo-pure", not eff.tw[q] and not fs.unknown_calls,
-                   f"a memoised function must be pure (write-set {sorted(map(str, eff.tw[q]))[:3]}, unresolved calls {len(fs.unknown_calls)})", node=fs.node, mod=fs.mod)
+            # publishing a lazily built module table (itself judged as a memo below) is not an effect of its caller
+            tw_ = [w for w in eff.tw[q] if not (w[0][0] == "global" and w[1] in eff.funcs and lazy_global(eff.funcs[w[1]]) == w[0][1])]
+            ctx.ob("R-C15-6", f"{q}/memo-pure", not tw_ and not fs.unknown_calls,
+                   f"a memoised function must be pure (write-set {sorted(map(str, tw_))[:3]}, unresolved calls {len(fs.unknown_calls)})", node=fs.node, mod=fs.mod)
             res_ok, how_res = _shared_result(fs)
             ctx.ob("R-C15-6", f"{q}/memo-result", res_ok,
                    f"the cached result is shared by every caller, so it must be immutable, or private and only ever read by its callers ({how_res})",
